@@ -10,7 +10,7 @@ import (
 type simWatch struct {
 	ch      <-chan struct{}
 	t       *simTable
-	p       Probe  // Kind may also be "all"
+	p       Probe       // Kind may also be "all"
 	base    *TableModel // committed state the query result refers to (nil while obtained inside a still-open transaction)
 	baseSeq string      // expected result at base (canonical)
 	origin  string
